@@ -11,5 +11,5 @@ CONSTANTS
   AllowCancel = TRUE
   AllowDestroy = TRUE
   PortReuse = TRUE
-INVARIANTS ICompleteOnce INoTxAfterDone ITxBound ISlots IArmed IMatch IDelivered IFailover IQuiescent IDestroyed IMemSafe INas IDuration
+INVARIANTS ICompleteOnce INoTxAfterDone ITxBound ISlots IArmed IMatch IDelivered IFailover IQuiescent IDestroyed IMemSafe INas IBufUnits IDuration
 CHECK_DEADLOCK FALSE
